@@ -86,12 +86,24 @@ thread_local! {
     static NEXT: Cell<u64> = const { Cell::new(u64::MAX) };
     static COUNTS: RefCell<[u64; NUM_SITES]> = const { RefCell::new([0; NUM_SITES]) };
     static CALLBACK: RefCell<Option<Callback>> = const { RefCell::new(None) };
+    /// Per-site occurrence counts at which the callback is also invoked
+    /// (u64::MAX: not armed).  Lets a simulator preempt "at the n-th time this
+    /// site is reached", which is how rarely taken paths get interleavings.
+    static SITE_ARM: RefCell<[u64; NUM_SITES]> = const { RefCell::new([u64::MAX; NUM_SITES]) };
 }
 
 /// Record one step at `site`.
 #[inline]
 pub fn tick(site: Site) {
-    COUNTS.with(|c| c.borrow_mut()[site as usize] += 1);
+    let count = COUNTS.with(|c| {
+        let mut c = c.borrow_mut();
+        c[site as usize] += 1;
+        c[site as usize]
+    });
+    if count == SITE_ARM.with(|a| a.borrow()[site as usize]) {
+        SITE_ARM.with(|a| a.borrow_mut()[site as usize] = u64::MAX);
+        slow(TICKS.with(|t| t.get()), site);
+    }
     if (site as usize) >= FIRST_PROBE {
         return;
     }
@@ -129,16 +141,27 @@ pub fn install(first: u64, cb: Callback) {
     NEXT.with(|n| n.set(first));
 }
 
+/// Also invoke the callback when `site` has been reached `at_count` times
+/// on this thread (counted since the last reset).  One arming per site at a
+/// time; the callback may re-arm the site it was called for.
+pub fn arm_site(site_index: usize, at_count: u64) {
+    if site_index < NUM_SITES {
+        SITE_ARM.with(|a| a.borrow_mut()[site_index] = at_count);
+    }
+}
+
 /// Remove this thread's callback (counters are kept).
 pub fn uninstall() {
     NEXT.with(|n| n.set(u64::MAX));
     CALLBACK.with(|c| *c.borrow_mut() = None);
+    SITE_ARM.with(|a| *a.borrow_mut() = [u64::MAX; NUM_SITES]);
 }
 
 /// Reset this thread's counters.
 pub fn reset() {
     TICKS.with(|t| t.set(0));
     COUNTS.with(|c| *c.borrow_mut() = [0; NUM_SITES]);
+    SITE_ARM.with(|a| *a.borrow_mut() = [u64::MAX; NUM_SITES]);
 }
 
 /// This thread's tick count.
